@@ -307,7 +307,7 @@ nested = gv.values(2, st.one_of(st.none(), st.booleans(), any_number, gv.strings
 EXPRS = ['a > 1', 'b', 'a + b', 'a == b', 'a * 2', 'stringNew(a)', 'a % 2 == 0', 'n + a', 'mathFloor(b)']
 ISO = ['2020-01-02', '2020-01-02T03:04:05Z', '2020-01-02T03:04:05.678+01:00', '2020-13-01', 'x']
 SCHEMA = ['struct A', '  int a', '  optional float(>= 1) b', 'typedef int[len > 0] B', 'enum E', '  X', '']
-CSV = ['a,b', '1,2', '1.0,x', '3,', '"q, r",4', 'a,b\n1,2\n3,4']
+CSV = ['a,b', '1,2', '1.0,x', '3,', '"q, r",4', 'a,b\n1,2\n3,4', 'a,b,a', '1,2,3,4', '5', 'a,a', ',', 'x,y,z,w,v', '']
 
 
 def arg_strategy(spec, fname, length_hint):
